@@ -12,6 +12,7 @@
 #define STD_VECTOR_TYPE(NAME, T) \
   struct NAME { T *data; unsigned long size; unsigned long cap; }; \
   static inline void NAME##__ctor(struct NAME *v) { v->data = (T*)malloc(sizeof(T) * VEC_CAP); __CPROVER_assume(v->data != 0); v->size = 0; v->cap = VEC_CAP; } \
+  static inline void NAME##__ctor_n(struct NAME *v, unsigned long n) { v->data = (T*)malloc(sizeof(T) * VEC_CAP); v->cap = VEC_CAP; __CPROVER_assert(n <= VEC_CAP, "model: std::vector capacity VEC_CAP sufficient"); if(n > 0) __builtin_memset(&v->data[0], 0, n * sizeof(T)); v->size = n; } \
   static inline unsigned long NAME##__size(const struct NAME *v) { return v->size; } \
   static inline _Bool NAME##__empty(const struct NAME *v) { return v->size == 0; } \
   static inline void NAME##__clear(struct NAME *v) { v->size = 0; } \
@@ -22,13 +23,15 @@
   static inline T *NAME##__begin(const struct NAME *v) { return v->data; } \
   static inline T *NAME##__end(const struct NAME *v) { return v->data + v->size; } \
   static inline T *NAME##__data(const struct NAME *v) { return v->data; } \
-  static inline void NAME##__push_back(struct NAME *v, const T *x) { __CPROVER_assert(v->size < v->cap, "model: std::vector capacity VEC_CAP sufficient"); v->data[v->size] = *x; v->size++; }
+  static inline void NAME##__push_back(struct NAME *v, const T *x) { if(!v->data) { v->data = (T*)malloc(sizeof(T) * VEC_CAP); v->cap = VEC_CAP; } __CPROVER_assert(v->size < v->cap, "model: std::vector capacity VEC_CAP sufficient"); v->data[v->size] = *x; v->size++; } \
+  static inline T *NAME##__emplace_slot(struct NAME *v) { if(!v->data) { v->data = (T*)malloc(sizeof(T) * VEC_CAP); v->cap = VEC_CAP; } __CPROVER_assert(v->size < v->cap, "model: std::vector capacity VEC_CAP sufficient"); __builtin_memset(&v->data[v->size], 0, sizeof(T)); v->size++; return &v->data[v->size - 1]; } \
+  static inline void NAME##__resize(struct NAME *v, unsigned long n) { if(!v->data) { v->data = (T*)malloc(sizeof(T) * VEC_CAP); v->cap = VEC_CAP; } __CPROVER_assert(n <= v->cap, "model: std::vector capacity VEC_CAP sufficient"); if(n > v->size) __builtin_memset(&v->data[v->size], 0, (n - v->size) * sizeof(T)); v->size = n; }
 #endif
 /* models of std::sort / std::lower_bound / std::upper_bound over pointer iterators (trusted, hand written).
  * CMP(closure, a, b) is a generated adapter around the real comparator. */
-#define STD_SORT(T, first, last, CMP) do { T *_sf = (first); T *_sl = (last); \
+#define STD_SORT(T, first, last, CMP, clos) do { T *_sf = (first); T *_sl = (last); const void *_sc = (clos); \
     for(T *_si = _sf + 1; _si < _sl; ++_si) { T _key = *_si; T *_sj = _si; \
-      while(_sj > _sf && CMP(0, &_key, _sj - 1)) { *_sj = *(_sj - 1); --_sj; } *_sj = _key; } } while(0)
+      while(_sj > _sf && CMP(_sc, &_key, _sj - 1)) { *_sj = *(_sj - 1); --_sj; } *_sj = _key; } } while(0)
 #define STD_LOWER_BOUND(T, first, last, valp, CMP, clos) ({ T *_lf = (first); long _ln = (last) - _lf; const void *_lc = (clos); \
     while(_ln > 0) { long _lh = _ln / 2; T *_lm = _lf + _lh; if(CMP(_lc, _lm, (valp))) { _lf = _lm + 1; _ln -= _lh + 1; } else _ln = _lh; } _lf; })
 #define STD_UPPER_BOUND(T, first, last, valp, CMP, clos) ({ T *_uf = (first); long _un = (last) - _uf; const void *_uc = (clos); \
